@@ -80,6 +80,12 @@ def gen(rng, tier):
         nt = len(leaves(t))
         out.append({"sx": sx({"op": Sym("shuffle"), "tree": T(t), "seed": rng.randrange(1, 2**31), "nraw": 2 * nt + 32}),
                     "meta": {"op": "shuffle", "ntips": nt}})
+    # ---- the uniform generator in the worker, per seed (structure; a changed index expression is a CORR here too)
+    for n in list(range(2, 12)) + [rng.randint(12, 40) for _ in range({"quick": 6, "thorough": 60, "search": 4}[tier])]:
+        for rooted in (False, True):
+            for _ in range({"quick": 2, "thorough": 10, "search": 2}[tier]):
+                out.append({"sx": sx({"op": Sym("uniform"), "n": n, "rooted": rooted, "seed": rng.randrange(1, 2**31), "nraw": 4 * n + 40}),
+                            "meta": {"op": "uniform", "rooted": rooted, "n": n}})
     # ---- the binary, per seed
     ok, err = _gotree()
     if not ok:
@@ -122,9 +128,34 @@ def gen(rng, tier):
             open(f, "w").write(newick(t) + "\n")
             jobs.append((["prune", "-i", f, "--random", str(k), "--seed", str(s)] + (["-r"] if rev else []), d))
             metas.append(("prune", tips, k, rev, s))
+        # several trees in one file, on different / overlapping tip sets: one selection per tree
+        for i in range({"quick": 40, "thorough": 500, "search": 30}[tier]):
+            nt = rng.randint(2, 4)
+            pool = ["u%d" % j for j in range(14)]
+            trees, tipss = [], []
+            for j in range(nt):
+                names = rng.sample(pool, rng.randint(5, 9))
+                sh = g.shape(names, maxdeg=4, rootdeg=3)
+                t = g.decorate(sh, lenmode="all", supmode="none")
+                trees.append(t)
+                tipss.append(leaves(t))
+            rev = rng.random() < 0.4
+            k = rng.randint(3, 5) if rev else rng.randint(1, 2)
+            s = rng.randrange(1, 2**31)
+            f = os.path.join(d, "m%d.nw" % i)
+            open(f, "w").write("".join(newick(t) + "\n" for t in trees))
+            jobs.append((["prune", "-i", f, "--random", str(k), "--seed", str(s)] + (["-r"] if rev else []), d))
+            metas.append(("prunemulti", tipss, k, rev, s))
         res = _runs(jobs)
         for m, (rc, so) in zip(metas, res):
-            if m[0] == "sample":
+            if m[0] == "prunemulti":
+                _, tipss, k, rev, s = m
+                rems = [_names(line) for line in so.split("\n") if line.strip()]
+                out.append({"sx": sx({"op": Sym("prunemulti"), "trees": tipss, "k": k, "revert": rev, "seed": s,
+                                      "nraw": 2 * sum(len(x) for x in tipss) + 32, "rc": 0 if rc == 0 else 1,
+                                      "remainings": rems if rc == 0 else []}),
+                            "meta": {"op": "prunemulti", "revert": rev, "ntrees": len(tipss), "k": k}})
+            elif m[0] == "sample":
                 _, n, k, repl, s = m
                 nd = (n * k if repl else max(0, n - k))
                 out.append({"sx": sx({"op": Sym("sample"), "n": n, "k": k, "replace": repl, "seed": s, "nraw": 2 * nd + 32,
@@ -199,6 +230,24 @@ def _binom_two_sided(S, c, p):
             tot += math.exp(lx)
     return min(1.0, tot)
 
+def _freq_detail(counts, outcomes, S):
+    """None when the counts are compatible with the uniform distribution on [outcomes], else a description"""
+    m = len(outcomes)
+    p = 1.0 / m
+    alpha = 1e-9 / m
+    fmt = lambda o: str(sorted(map(lambda x: sorted(x) if isinstance(x, frozenset) else x, o)) if isinstance(o, frozenset) else o)
+    unexpected = [o for o in counts if o not in outcomes]
+    if unexpected:
+        return "an outcome outside the expected set was produced: %s" % fmt(unexpected[0])
+    missing = [o for o in outcomes if counts.get(o, 0) == 0]
+    if missing and S * p >= 30:
+        return "%d of %d outcomes never occur in %d seeds" % (len(missing), m, S)
+    for o in outcomes:
+        c = counts.get(o, 0)
+        if _binom_two_sided(S, c, p) < alpha:
+            return "outcome %s occurs %d times in %d seeds, expected %.1f" % (fmt(o), c, S, S * p)
+    return None
+
 def _judge_freq(name, counts, outcomes, S, fails, info, body):
     """counts: dict outcome -> count; outcomes: the full expected outcome set (uniform)"""
     m = len(outcomes)
@@ -252,6 +301,21 @@ def extra(tier, seed, st):
             outs = set(frozenset(c) for c in combinations(names, k))
             configs.append(("prune-random n=%d k=%d" % (n, k), ["prune", "-i", f, "--random", str(k)], outs,
                             (lambda names: lambda so: frozenset(names) - frozenset(_names(so)))(names)))
+        for tag, t1, t2 in [("disjoint", ["t0", "t1", "t2", "t3"], ["v0", "v1", "v2", "v3"]),
+                            ("overlapping", ["t0", "t1", "t2", "t3"], ["t2", "t3", "v0", "v1"])]:
+            f = os.path.join(d, "multi-%s.nw" % tag)
+            open(f, "w").write("(" + ",".join(t1) + ");\n(" + ",".join(t2) + ");\n")
+            outs = set((a, b) for a in t1 for b in t2)
+            def key2(so, t1=t1, t2=t2):
+                lines = [l for l in so.split("\n") if l.strip()]
+                if len(lines) != 2:
+                    raise ValueError("expected 2 trees")
+                r1 = sorted(set(t1) - set(_names(lines[0])))
+                r2 = sorted(set(t2) - set(_names(lines[1])))
+                if len(r1) != 1 or len(r2) != 1:
+                    return ("removed", tuple(r1), tuple(r2))
+                return (r1[0], r2[0])
+            configs.append(("prune-random two trees (%s tip sets) k=1" % tag, ["prune", "-i", f, "--random", "1"], outs, key2))
         def all_topos(n, rooted):
             # insertion enumeration in Python (independent of the Go enumerator and of the Coq model)
             names = ["Tip%d" % i for i in range(n)]
@@ -309,6 +373,21 @@ def extra(tier, seed, st):
             if bad is not None:
                 fails.append((name, "`gotree %s --seed %s` failed (%s)" % (" ".join(argv), bad[0], bad[1]), body))
                 continue
+            if name.startswith("uniformtree-rooted"):
+                # classify a bias of the rooted generator: the KNOWN defect is "uniform on exactly the topologies
+                # that separate Tip0 and Tip1 at the root" (never inserts above the root); anything else is new
+                before = len(fails)
+                _judge_freq(name, counts, outs, S, fails, info, body)
+                if len(fails) > before:
+                    sep = set(o for o in outs if not any(("Tip0" in c and "Tip1" in c) for c in o))
+                    other = _freq_detail(counts, sep, S)
+                    nm, det, bd = fails.pop()
+                    if other is None:
+                        fails.append((nm + " [known: never above the root]", det + "; compatible with the uniform distribution on the %d "
+                                      "topologies that separate Tip0 and Tip1 at the root" % len(sep), bd))
+                    else:
+                        fails.append((nm + " [other bias]", det + "; NOT the known root-branch defect: " + other, bd))
+                continue
             _judge_freq(name, counts, outs, S, fails, info, body)
     finally:
         shutil.rmtree(d, ignore_errors=True)
@@ -324,7 +403,12 @@ def _extra_name(c):
     return ((c.get("meta") or {}).get("extra") or "")
 
 MATCHERS = {
-    # tree/treegen.go RandomUniformBinaryTree(rooted): never inserts above the root
-    "C20-uniform-rooted-root-branch": lambda c: _extra_name(c).startswith("uniformtree-rooted")
-        or (_case_op(c).get("op") == "enum-uniform" and _case_op(c).get("rooted") == "T"),
+    # tree/treegen.go RandomUniformBinaryTree(rooted) never inserts above the root: it is uniform on exactly the rooted
+    # topologies that separate Tip0 and Tip1 at the root.  Only that exact distribution is the known finding: the judge's
+    # enumeration marks it KNOWN-ROOT-BRANCH, the frequency check names it "[known: never above the root]"; any other
+    # bias of the rooted generator is a violation.
+    "C20-uniform-rooted-root-branch": lambda c: (_extra_name(c).startswith("uniformtree-rooted")
+                                                 and _extra_name(c).endswith("[known: never above the root]"))
+        or (_case_op(c).get("op") == "enum-uniform" and _case_op(c).get("rooted") == "T"
+            and bool(c.get("fields")) and "KNOWN-ROOT-BRANCH" in c["fields"][0]),
 }
